@@ -137,10 +137,12 @@ def make_hash(H, rounds, p, seed):
     key = (H.name, rounds, p, seed)
     if key not in _HC:
         W = _wrapped(H)
-        if "salt" not in W.setting_kwds:
+        if "user" in (getattr(H, "context_kwds", None) or ()):
+            _HC[key] = H.hash(p, user="u")
+        elif "salt" not in W.setting_kwds and rounds is None:
             _HC[key] = H.hash(p)
         else:
-            kw = {"salt": _salt(W, seed)}
+            kw = {"salt": _salt(W, seed)} if "salt" in W.setting_kwds else {}
             if rounds is not None:
                 kw["rounds"] = rounds
             o = W(use_defaults=True, **kw)
@@ -245,6 +247,12 @@ def probe_costs(model, scheme):
 # one context against the model
 # ---------------------------------------------------------------------------
 def eval_ctx(case, acc=None):
+    # ambient scripted source: no call of the context may ever reach the process-wide random generator
+    with env.scripted_rng(EndRng("hi", case.get("seed", 0))):
+        return _eval_ctx(case, acc)
+
+
+def _eval_ctx(case, acc=None):
     from passlib.context import CryptContext
 
     acc = acc if acc is not None else Acc()
@@ -487,6 +495,11 @@ LIBPASS = ("lp_sha256", "lp_sha512", "lp_pbkdf2_sha256")
 
 
 def eval_libpass(case, acc=None):
+    with env.scripted_rng(EndRng("hi", case.get("seed", 0))):
+        return _eval_libpass(case, acc)
+
+
+def _eval_libpass(case, acc=None):
     from libpass.context import CryptContext as LC
     from mc.checks.c01 import libpass_hasher
 
@@ -657,6 +670,8 @@ def run(ctx):
     for n in (1, 2, 3):
         for L in itertools.permutations(LIBPASS, n):
             cases.append({"part": "libpass", "schemes": list(L), "seed": seed})
+    for i, c in enumerate(cases):
+        c["idx"] = i
     ctx.log(f"{nctx} pool contexts, {len(cases) - nctx} overlap / libpass contexts, {len(seen_heavy)} executed at expensive default cost")
     # heavy contexts first (long), then interleave for balance
     heavy = [c for c in cases if c.get("heavy_ok")]
@@ -664,6 +679,7 @@ def run(ctx):
     nsh = 512 if len(rest) > 20000 else 128
     tasks = [{"cases": [c]} for c in heavy] + [{"cases": rest[i::nsh]} for i in range(nsh) if rest[i::nsh]]
     acc = core.pmap(work, tasks)
+    acc.violations.sort(key=lambda v: v[2].get("idx", 0))
     ctx.merge(acc)
     ctx.cov["states"] = acc.counters["states"]
     ctx.cov["transitions"] = acc.counters["transitions"]
